@@ -135,7 +135,18 @@ def run_arith(chk, bindir, tier, build="debug"):
         raise core.ToolError("timearith arith produced no output: " + p.stderr[-500:])
     # judge: the same call is often recorded for both types / both spellings - judge all
     jl = [K.to_judge_line(l) for l in lines]
-    bad = judge_lines(chk, jl, "arith_" + build, par=3 if tier == "quick" else 6)
+    # anti-vacuity: falsified copies of recorded lines are appended; those whose original is accepted
+    # must all be rejected (checked below)
+    rng = random.Random(chk.seed)
+    cand = [i for i, l in enumerate(lines) if expected(l)[0] not in ("nopanic",) and l["out"][0] != "panic"
+            and l["op"] != "elapsed"]      # elapsed() is only bracketed, a small falsification stays inside the bracket
+    pick = [rng.choice(cand) for _ in range(60)] if cand else []
+    fals = [corrupt(rng, lines[i]) for i in pick]
+    nreal = len(lines)
+    bad_all = judge_lines(chk, jl + [K.to_judge_line(l) for l in fals], "arith_" + build,
+                          batch=(nreal + len(fals) + 2) // 3 if tier == "quick" else 5000, par=3 if tier == "quick" else 6)
+    bad = [i for i in bad_all if i < nreal]
+    fbad = {i - nreal for i in bad_all if i >= nreal}
     chk.traces += len(lines)
     chk.evaluations += len(lines)
     nontriv = set()
@@ -186,16 +197,11 @@ def run_arith(chk, bindir, tier, build="debug"):
                         l["ty"], l["op"] + ("/" + l["via"] if "via" in l else ""), l["a"], l["b"], o, e,
                         " [release build]" if build == "release" else ""),
                     {"mode": "arith", "line": l, "build": build})
-    # anti-vacuity: falsified copies of accepted lines must all be rejected
-    rng = random.Random(chk.seed)
     badset = set(bad)
-    pool = [l for i, l in enumerate(lines) if i not in badset and expected(l)[0] not in ("nopanic",) and l["out"][0] != "panic"
-            and l["op"] != "elapsed"]      # elapsed() is only bracketed, a small falsification stays inside the bracket
-    fals = [corrupt(rng, rng.choice(pool)) for _ in range(60)] if pool else []
-    if fals:
-        fb = judge_lines(chk, [K.to_judge_line(l) for l in fals], "falsified", par=1)
-        if len(fb) != len(fals):
-            raise core.ToolError("judge self-test: only %d of %d falsified records were rejected" % (len(fb), len(fals)))
+    missed = [k for k, i in enumerate(pick) if i not in badset and k not in fbad]
+    if missed:
+        raise core.ToolError("judge self-test: %d falsified records were accepted, e.g. %s" % (len(missed), fals[missed[0]]))
+    fals = [f for k, f in enumerate(fals) if pick[k] not in badset]
     sfx = "" if build == "debug" else "_release_build"
     chk.extra["arith_calls_judged" + sfx] = len(lines)
     chk.extra["arith_calls_in_exactness_domain" + sfx] = indom
@@ -286,15 +292,16 @@ def _run(chk, tier):
     bindir = core.cargo_build(bins=["timearith"])
     # 1 + 2 + Clock: model checking
     with ThreadPoolExecutor(max_workers=5) as ex:
-        f1 = ex.submit(tlc_model, chk, "TimeArithCode.tla", "TimeArithCode.cfg", "TimeArithCode", 3)
+        # TimeArithTie.cfg checks TimeArithCode's own invariants (Exact, NoPanic, Laws, Normalised) and
+        # the equality with the flattened Apalache module in one run
+        f1 = ex.submit(tlc_model, chk, "TimeArithTie.tla", "TimeArithTie.cfg", "TimeArithTie", 3)
         f2 = ex.submit(tlc_model, chk, "BigNat_MC.tla", None, "BigNat_MC", 3,
                        "CONSTANTS\n  XMAX = %d\nINIT Init\nNEXT Next\nINVARIANT Check\nCHECK_DEADLOCK FALSE\n" % (1200 if tier == "quick" else 12000))
         f3 = ex.submit(tlc_model, chk, "Clock.tla", "Clock_MC.cfg", "Clock_MC", 2)
-        f4 = ex.submit(tlc_model, chk, "TimeArithTie.tla", "TimeArithTie.cfg", "TimeArithTie", 2)
         f5 = ex.submit(run_apalache, chk, tier)
-        r1, r2, r3, r4 = f1.result(), f2.result(), f3.result(), f4.result()
+        r1, r2, r3 = f1.result(), f2.result(), f3.result()
         chk.extra["apalache"] = f5.result()
-    for r in (r1, r2, r3, r4):
+    for r in (r1, r2, r3):
         chk.add_tlc(r)
     chk.extra["scaled_exhaustive_inputs"] = r1.distinct
     chk.extra["bignat_selfcheck_pairs"] = r2.distinct
